@@ -108,7 +108,7 @@ class E(opscalar.ScalarOp):
         # integer arrays (relaxation-time maps) would overflow in the powers of the derivative formulas
         tau, T1, T2, g = [
             np.asarray(arr, dtype=float)[()]
-            if isinstance(arr, (np.ndarray, np.generic)) and arr.dtype.kind in "iub"
+            if getattr(getattr(arr, "dtype", None), "kind", "") in ("i", "u", "b")
             else arr
             for arr in (tau, T1, T2, g)
         ]
